@@ -599,8 +599,11 @@ impl Stdfs {
         let copy_into = Stdfs::is_dir(&dst_root);
 
         // Iterate over source taking into account link following
+        // Read the source tree before creating anything so that copying a directory into
+        // itself doesn't keep discovering what it just created
         let src_root = StdfsEntry::from(&src_root)?.follow(cp.follow);
-        for entry in Stdfs::entries(src_root.path())?.follow(cp.follow) {
+        let entries: Vec<RvResult<VfsEntry>> = Stdfs::entries(src_root.path())?.follow(cp.follow).into_iter().collect();
+        for entry in entries {
             let src = entry?;
 
             // Set destination path based on source path
